@@ -5,9 +5,9 @@ import (
 	"testing"
 	"time"
 
-	"github.com/taskctl/taskctl/internal/vrt"
-	"github.com/taskctl/taskctl/internal/vrt/vatomic"
-	"github.com/taskctl/taskctl/internal/vrt/vsync"
+	"github.com/taskctl/taskctl/vrt"
+	"github.com/taskctl/taskctl/vrt/vatomic"
+	"github.com/taskctl/taskctl/vrt/vsync"
 )
 
 func TestLostUpdate(t *testing.T) {
